@@ -1,5 +1,6 @@
 import LitexModel.Wishbone.Interconnect
 import LitexModel.Soc.Bus
+import LitexModel.Export.Adapt
 /-
   `SoCBusHandler.do_finalize` (litex/soc/integration/soc.py), Wishbone standard: which fabric is instantiated
   for the registered masters/slaves, and the resulting bus as one machine.
@@ -170,6 +171,8 @@ def checkRegionsOverlap (checkLinker : Bool) (l : List Region) : Option (Nat × 
 inductive GlueOp where
   | master                                        -- `add_master("m<k>", Interface(...))`
   | masterR (origin size : Nat)                   -- `add_master("m<k>", Interface(...), region=SoCRegion(origin, size))`
+  | masterB                                       -- `add_master("m<k>", Interface(..., addressing="byte"))`
+  | slaveB (origin : Option Nat) (size : Nat) (cached linker : Bool)   -- `add_slave` of a byte-addressed Interface
   | slave  (origin : Option Nat) (size : Nat) (cached linker : Bool)   -- `add_slave("s<k>", iface, SoCRegion(...))`
   | region (origin : Option Nat) (size : Nat) (cached linker : Bool)   -- `add_region("r<k>", SoCRegion(...))`
   | io     (origin size : Nat)                    -- `add_region("io<k>", SoCIORegion(origin, size, cached=False))`
@@ -179,6 +182,8 @@ deriving Repr, DecidableEq
 def GlueOp.toBusOp (k : Nat) : GlueOp → BusOp Nat
   | .master => .addMaster (some k)
   | .masterR _ _ => .addMaster (some k)            -- the region only configures the remapper in front of the port
+  | .masterB => .addMaster (some k)                -- addressing only changes the adapter in front of the port
+  | .slaveB o sz c l => .addSlave (some k) (some { origin := o, size := sz, cached := c, linker := l })
   | .slave o sz c l => .addSlave (some k) (some { origin := o, size := sz, cached := c, linker := l })
   | .region o sz c l => .addRegion k { origin := o, size := sz, cached := c, linker := l }
   | .io o sz => .addRegion k { io := true, origin := some o, size := sz, cached := false }
@@ -214,12 +219,30 @@ def glueRemaps : List GlueOp → List (Option (Nat × Nat))
   | [] => []
   | .master :: ops => none :: glueRemaps ops
   | .masterR o sz :: ops => some (o, sz) :: glueRemaps ops
+  | .masterB :: ops => none :: glueRemaps ops
   | _ :: ops => glueRemaps ops
+
+/-- Per master (in `add_master` order): is its port byte-addressed? -/
+def glueMByte : List GlueOp → List Bool
+  | [] => []
+  | .master :: ops => false :: glueMByte ops
+  | .masterR _ _ :: ops => false :: glueMByte ops
+  | .masterB :: ops => true :: glueMByte ops
+  | _ :: ops => glueMByte ops
+
+/-- Per slave (in `add_slave` order): is its port byte-addressed? -/
+def glueSByte : List GlueOp → List Bool
+  | [] => []
+  | .slave _ _ _ _ :: ops => false :: glueSByte ops
+  | .slaveB _ _ _ _ :: ops => true :: glueSByte ops
+  | _ :: ops => glueSByte ops
 
 /-- A finished bus together with the remappers in front of its master ports. -/
 structure SocRCfg where
   soc    : SocCfg
   remaps : List (Option (Nat × Nat)) := []
+  mByte  : List Bool := []          -- per master: port declared `addressing="byte"` (same data width as the bus)
+  sByte  : List Bool := []          -- per slave: likewise
 
 namespace SocRCfg
 def sh (c : SocRCfg) : Nat := Nat.log2 (c.soc.dw / 8)
@@ -239,6 +262,36 @@ end SocRCfg
 def SocRBus.machine (c : SocRCfg) : Machine BusIn SocState BusOut :=
   { init := SocBus.init c.soc, out := fun s x => SocBus.out c.soc s (c.mapIn x),
     next := fun s x => SocBus.next c.soc s (c.mapIn x) }
+
+/-! ### `add_adapter` / `bus_addressing_convert`: byte-addressed wishbone ports on the word-addressed bus
+
+      address_shift = log2_int(interface.data_width//8)          # the (adapted) interface has the bus's data width
+      m2s, byte port:  adapted.adr.eq(interface.adr[address_shift:])
+      s2m, byte port:  interface.adr[address_shift:].eq(adapted.adr)
+  The two slice assignments are C14's `Export.convM2S` / `Export.convS2M` (`LitexModel/Export/Adapt.lean`, imported
+  read-only).  A byte-addressed port cannot also have a different data width (`wishbone.Converter` asserts word
+  addressing), and in this model a port has either a remapper or byte addressing, not both. -/
+namespace SocRCfg
+/-- Word address the bus side of master `i`'s adapter carries when the port drives `a`. -/
+def masterAdr (c : SocRCfg) (i a : Nat) : Nat :=
+  if c.mByte.getD i false then Export.convM2S false true c.sh (c.soc.aw - c.sh) a else a
+
+/-- Address slave `j`'s own port sees when the bus side of its adapter carries word address `w`. -/
+def slaveAdr (c : SocRCfg) (j w : Nat) : Nat :=
+  if c.sByte.getD j false then Export.convS2M false true c.sh c.soc.aw w else w
+
+def adaptIn (c : SocRCfg) (x : BusIn) : BusIn :=
+  { x with ms := fun i => { x.ms i with adr := c.masterAdr i (x.ms i).adr } }
+
+def adaptOut (c : SocRCfg) (o : BusOut) : BusOut :=
+  { o with toS := fun j => { o.toS j with adr := c.slaveAdr j (o.toS j).adr } }
+end SocRCfg
+
+/-- The bus as the ports see it: addressing adapters around remappers around the fabric. -/
+def SocABus.machine (c : SocRCfg) : Machine BusIn SocState BusOut :=
+  { init := SocBus.init c.soc,
+    out := fun s x => c.adaptOut ((SocRBus.machine c).out s (c.adaptIn x)),
+    next := fun s x => (SocRBus.machine c).next s (c.adaptIn x) }
 
 /-- Outcome of a whole build: rejected at call `k`, rejected by `do_finalize`, or the bus. -/
 inductive GlueResult where
@@ -262,6 +315,7 @@ def glueBuild (dw aw : Nat) (kind : BusKind) (reg : Bool) (timeout : Option Nat)
   | .inr s =>
     match s.finalize with
     | .error _ => .finRejected
-    | .ok _ => .built { soc := socOfBus s kind reg timeout, remaps := glueRemaps ops }
+    | .ok _ => .built { soc := socOfBus s kind reg timeout, remaps := glueRemaps ops, mByte := glueMByte ops,
+                        sByte := glueSByte ops }
 
 end Litex.Wishbone
